@@ -18,7 +18,7 @@ where
         F::from_bytes((s, u7(d1), u7(d2)))
     });
     let Some(r) = r else {
-        rep.violation(
+        crate::viol!(rep, 
             format!("C01:panic:from_bytes:{}", name),
             format!("{}::from_bytes(({},{},{})) panicked", name, s, d1, d2),
             json!({"kind":"triple","carrier":name,"status":s,"d1":d1,"d2":d2}),
@@ -27,7 +27,7 @@ where
     };
     let should_ok = s >= 0x80;
     if r.is_ok() != should_ok {
-        rep.violation(
+        crate::viol!(rep, 
             format!("C01:accept:{}:{}", name, if should_ok { "rejects-valid" } else { "accepts-invalid" }),
             format!(
                 "{}::from_bytes(({},{},{})) returned {} but status byte {} 0x80",
@@ -47,7 +47,7 @@ where
         (m.to_bytes(), (m.status_byte(), m.data_byte_1(), m.data_byte_2()))
     });
     let Some((tb, gb)) = got else {
-        rep.violation(
+        crate::viol!(rep, 
             format!("C01:panic:getters:{}:{}", name, type_name(s)),
             format!("byte getters of {}::from_bytes(({},{},{})) panicked", name, s, d1, d2),
             json!({"kind":"triple","carrier":name,"status":s,"d1":d1,"d2":d2}),
@@ -58,7 +58,7 @@ where
     let tbn = (tb.0, tb.1.get(), tb.2.get());
     let gbn = (gb.0, gb.1.get(), gb.2.get());
     if tbn != exp || gbn != exp {
-        rep.violation(
+        crate::viol!(rep, 
             format!("C01:bytes:{}:{}", name, type_name(s)),
             format!(
                 "{}::from_bytes(({},{},{})): to_bytes()={:?} getters={:?} expected {:?}",
@@ -84,14 +84,14 @@ fn check_raw_extra(s: u8, d1: u8, d2: u8, rep: &mut Report) {
     });
     let rp = json!({"kind":"triple","carrier":"Raw","status":s,"d1":d1,"d2":d2});
     match r {
-        None => rep.violation(
+        None => crate::viol!(rep, 
             format!("C01:panic:raw-roundtrip:{}", type_name(s)),
             format!("raw round trip of ({},{},{}) panicked", s, d1, d2),
             rp,
         ),
         Some(Err(_)) => {
             if s >= 0x80 {
-                rep.violation(
+                crate::viol!(rep, 
                     "C01:accept:RawTryFrom:rejects-valid",
                     format!("RawShortMessage::try_from(({},{},{})) failed", s, d1, d2),
                     rp,
@@ -100,7 +100,7 @@ fn check_raw_extra(s: u8, d1: u8, d2: u8, rep: &mut Report) {
         }
         Some(Ok((t, b1, b2, b3, e12, e13))) => {
             if s < 0x80 {
-                rep.violation(
+                crate::viol!(rep, 
                     "C01:accept:RawTryFrom:accepts-invalid",
                     format!("RawShortMessage::try_from(({},{},{})) succeeded", s, d1, d2),
                     rp,
@@ -109,7 +109,7 @@ fn check_raw_extra(s: u8, d1: u8, d2: u8, rep: &mut Report) {
             }
             let n = |b: (u8, U7, U7)| (b.0, b.1.get(), b.2.get());
             if n(t) != (s, d1, d2) {
-                rep.violation(
+                crate::viol!(rep, 
                     format!("C01:raw-into-tuple:{}", type_name(s)),
                     format!("Into<(u8,U7,U7)> of raw ({},{},{}) gave {:?}", s, d1, d2, n(t)),
                     rp.clone(),
@@ -117,7 +117,7 @@ fn check_raw_extra(s: u8, d1: u8, d2: u8, rep: &mut Report) {
             }
             let c = canon(s, d1, d2);
             if n(b1) != c || n(b2) != c || n(b3) != c || !e12 || !e13 {
-                rep.violation(
+                crate::viol!(rep, 
                     format!("C01:raw-structured-raw:{}", type_name(s)),
                     format!(
                         "raw->structured->raw of ({},{},{}): once={:?} twice={:?} from_other={:?} expected {:?}",
@@ -145,7 +145,7 @@ fn check_structured_value(s: u8, d1: u8, d2: u8, rep: &mut Report) {
     });
     let rp = json!({"kind":"structured","status":s,"d1":d1,"d2":d2,"value":format!("{:?}", v)});
     let Some((b, back, via_raw, same, rb2, rb, via_foreign)) = r else {
-        rep.violation(
+        crate::viol!(rep, 
             format!("C01:panic:structured-roundtrip:{}", type_name(s)),
             format!("round trip of {:?} panicked", v),
             rp,
@@ -154,7 +154,7 @@ fn check_structured_value(s: u8, d1: u8, d2: u8, rep: &mut Report) {
     };
     let bn = (b.0, b.1.get(), b.2.get());
     if bn != (s, d1, d2) {
-        rep.violation(
+        crate::viol!(rep, 
             format!("C01:structured-to-bytes:{}", type_name(s)),
             format!("{:?}.to_bytes() = {:?}, expected {:?}", v, bn, (s, d1, d2)),
             rp.clone(),
@@ -162,7 +162,7 @@ fn check_structured_value(s: u8, d1: u8, d2: u8, rep: &mut Report) {
     }
     let ok = matches!(back, Ok(x) if x == v) && via_raw == v && same == v && via_foreign == v && rb2 == b && rb == b;
     if !ok {
-        rep.violation(
+        crate::viol!(rep, 
             format!("C01:structured-roundtrip:{}", type_name(s)),
             format!(
                 "{:?}: from_bytes(to_bytes)={:?} via_raw={:?} to_structured={:?} via_foreign={:?} raw bytes {:?}/{:?}",
@@ -176,7 +176,7 @@ fn check_structured_value(s: u8, d1: u8, d2: u8, rep: &mut Report) {
 pub fn run(cfg: &Cfg, rep: &mut Report) {
     rep.rule("all 256x128x128 (status,d1,d2) triples through from_bytes of RawShortMessage, StructuredShortMessage and a foreign implementor; every StructuredShortMessage value as an enum literal (one per canonical triple); non-trivial = valid status and a non-zero data byte; distinct by construction (enumeration without repetition)");
     // When running as a C18 sub-workload the sweep is thinned (every 5th d2) unless thorough.
-    let stride: usize = if cfg.as_c18 && !cfg.thorough { 5 } else { 1 };
+    let stride: usize = if cfg.as_c18 && !cfg.thorough { 5 } else if cfg.secondary && !cfg.thorough { 3 } else { 1 };
     par(cfg, rep, |shard, n, rep| {
         let mut evals = 0u64;
         let mut nontrivial = 0u64;
@@ -231,14 +231,14 @@ pub fn run(cfg: &Cfg, rep: &mut Report) {
         rep.evaluations += 1;
         let exp_b = canon(0xF1, d1, 0).1;
         match r {
-            None => rep.violation(
+            None => crate::viol!(rep, 
                 "C01:panic:quarter-frame",
                 format!("quarter frame conversion of {} panicked", d1),
                 json!({"kind":"quarter-frame","d1":d1}),
             ),
             Some((f, b, f2)) => {
                 if f != quarter_frame(d1) || b.get() != exp_b || f2 != f {
-                    rep.violation(
+                    crate::viol!(rep, 
                         "C01:quarter-frame-codec",
                         format!(
                             "U7({}) -> {:?} -> U7({}) -> {:?}; expected frame {:?}, byte {}",
@@ -264,7 +264,7 @@ pub fn run(cfg: &Cfg, rep: &mut Report) {
         });
         rep.evaluations += 1;
         if !matches!(r, Some((b, f2)) if b.get() == *d1 && f2 == *f) {
-            rep.violation(
+            crate::viol!(rep, 
                 "C01:quarter-frame-roundtrip",
                 format!("{:?} -> {:?}; expected byte {}", f, r.map(|x| (x.0.get(), x.1)), d1),
                 json!({"kind":"quarter-frame","d1":d1}),
@@ -283,14 +283,14 @@ pub fn run(cfg: &Cfg, rep: &mut Report) {
         rep.evaluations += 1;
         let exp = TYPES.iter().find(|t| t.0 == b);
         match (r, exp) {
-            (None, _) => rep.violation(
+            (None, _) => crate::viol!(rep, 
                 "C01:panic:type-byte",
                 format!("ShortMessageType::try_from({}) panicked", b),
                 json!({"kind":"type-byte","byte":b}),
             ),
             (Some(None), None) => {}
             (Some(Some((t, back))), Some(e)) if t == e.1 && back == b => ok_bytes += 1,
-            (Some(got), _) => rep.violation(
+            (Some(got), _) => crate::viol!(rep, 
                 "C01:type-byte-codec",
                 format!(
                     "ShortMessageType::try_from({}) = {:?}, expected {:?}",
@@ -307,7 +307,7 @@ pub fn run(cfg: &Cfg, rep: &mut Report) {
         let r = api("u8::from(ShortMessageType)", || u8::from(t.1));
         rep.evaluations += 1;
         if r != Some(t.0) {
-            rep.violation(
+            crate::viol!(rep, 
                 "C01:type-byte-codec",
                 format!("u8::from({}) = {:?}, expected {}", t.2, r, t.0),
                 json!({"kind":"type-byte","byte":t.0}),
